@@ -127,50 +127,61 @@ Proof.
   destruct (Z.ltb_spec b 0); [lia|]. destruct (Z.leb_spec len b); lia.
 Qed.
 
-(* a stop of -1 means "the last element" *)
-Lemma adjust_backward_minus1 : forall len, 0 < len -> adjust_bound len (-1) (-1) = len - 1.
-Proof.
-  intros len H. unfold adjust_bound. change (-1 <? 0) with true. cbv iota.
-  destruct (Z.ltb_spec (-1 + len) 0); lia.
-Qed.
-
 Lemma slice_forward : forall len a b, 0 <= a -> a <= b -> b <= len ->
-  slice_indices len a b 1 = zrange a (b - a).
+  slice_indices len a (Some b) 1 = zrange a (b - a).
 Proof.
   intros len a b Ha Hab Hb. unfold slice_indices.
   rewrite !adjust_forward by lia. reflexivity.
 Qed.
 
-(* the defect: for the last group of a reversed slice axis the stop is -1,
-   which Python reads as len - 1, and nothing is selected -- whatever the
-   number of slices and the chunk depth *)
-Lemma reversed_last_group_empty_lemma : forall n d, 0 < n -> 0 < d ->
-  group_sel n n d (-1) ((n - 1) / d) = [].
+(* seq[a:b:-1] with 0 <= b <= a < len, and seq[a::-1] (stop omitted): from a
+   down to b + 1, resp. down to 0 *)
+Lemma slice_backward : forall len a b, 0 <= b -> b <= a -> a < len ->
+  slice_indices len a (Some b) (-1) = map (fun i => a - i) (zrange 0 (a - b)).
 Proof.
-  intros n d Hn Hd. unfold group_sel. cbn [Z.eqb].
-  set (g := (n - 1) / d).
-  assert (Hg1 : d * g <= n - 1) by (apply Z.mul_div_le; lia).
-  assert (Hg0 : 0 <= d * g) by (apply Z.mul_nonneg_nonneg; [lia | apply Z.div_pos; lia]).
-  assert (Hg2 : n - 1 < d * (g + 1)).
-  { pose proof (Z.mod_pos_bound (n - 1) d Hd). pose proof (Z.div_mod (n - 1) d ltac:(lia)). subst g. lia. }
-  replace (Z.min (d * (g + 1)) n) with n by lia.
-  replace (n - n - 1) with (-1) by lia.
-  unfold slice_indices. rewrite adjust_backward_minus1 by lia.
-  rewrite adjust_backward_in by lia.
-  change (-1 =? 1) with false. change (-1 =? -1) with true. cbv iota.
-  rewrite zrange_nonpos by lia. reflexivity.
+  intros len a b Hb Hab Ha. unfold slice_indices.
+  rewrite !adjust_backward_in by lia. reflexivity.
 Qed.
 
-(* earlier groups of a reversed axis are read in the intended (reversed) order *)
-Lemma reversed_inner_group_lemma : forall n d g, 0 < d -> 0 <= g -> d * (g + 1) < n ->
-  group_sel n n d (-1) g = map (fun i => n - 1 - d * g - i) (zrange 0 d).
+Lemma slice_backward_open : forall len a, 0 <= a -> a < len ->
+  slice_indices len a None (-1) = map (fun i => a - i) (zrange 0 (a + 1)).
 Proof.
-  intros n d g Hd Hg Hlt. unfold group_sel. cbn [Z.eqb].
-  replace (Z.min (d * (g + 1)) n) with (d * (g + 1)) by lia.
-  unfold slice_indices. rewrite !adjust_backward_in by nia.
+  intros len a H0 Ha. unfold slice_indices.
+  rewrite adjust_backward_in by lia. change (-1 <? 0) with true. cbv iota.
   change (-1 =? 1) with false. change (-1 =? -1) with true. cbv iota.
-  replace (n - d * g - 1 - (n - d * (g + 1) - 1)) with d by lia.
-  apply map_ext. intro i. lia.
+  replace (a - -1) with (a + 1) by lia. reflexivity.
+Qed.
+
+Lemma zrange_shift : forall a n, zrange a n = map (fun i => a + i) (zrange 0 n).
+Proof.
+  intros a n. unfold zrange. rewrite map_map. apply map_ext. intro i. lia.
+Qed.
+
+(* Which files a slice group reads, for both directions of the slice axis and
+   every group: the slices d g .. min(d (g+1), n) - 1 of the oriented stack,
+   i.e. file  d g + i  (forward) or  n - 1 - (d g + i)  (reversed), in that
+   order. *)
+Lemma group_sel_spec : forall n d i2 g, i2 = 1 \/ i2 = -1 -> 0 < d -> 0 <= g -> d * g < n ->
+  group_sel n n d i2 g =
+  map (fun i => flip_index n i2 (d * g + i)) (zrange 0 (Z.min (d * (g + 1)) n - d * g)).
+Proof.
+  intros n d i2 g [-> | ->] Hd Hg Hlt; unfold group_sel, flip_index.
+  - change (1 =? -1) with false. cbv iota.
+    rewrite slice_forward by nia. apply zrange_shift.
+  - change (-1 =? -1) with true. cbv iota.
+    destruct (Z.leb_spec 0 (n - Z.min (d * (g + 1)) n - 1)) as [Hl|Hl].
+    + rewrite slice_backward by nia.
+      replace (n - d * g - 1 - (n - Z.min (d * (g + 1)) n - 1)) with (Z.min (d * (g + 1)) n - d * g) by lia.
+      apply map_ext. intro i. lia.
+    + rewrite slice_backward_open by nia.
+      replace (n - d * g - 1 + 1) with (Z.min (d * (g + 1)) n - d * g) by lia.
+      apply map_ext. intro i. lia.
+Qed.
+
+Lemma nth_error_map_zrange : forall (f : Z -> Z) n i, 0 <= i < n ->
+  nth_error (map f (zrange 0 n)) (Z.to_nat i) = Some (f i).
+Proof.
+  intros f n i H. rewrite nth_error_map, (nth_error_zrange 0 n i H). reflexivity.
 Qed.
 
 (* ================= setup, for each of the 48 codes ================= *)
@@ -188,12 +199,12 @@ Proof.
   intros code H. apply existsb_exists in H as (c & Hc & He). apply code_eqb_eq in He. subst c. exact Hc.
 Qed.
 
-(* what a forward-slice conversion yields, in terms of the permutation and the
-   two in-plane inversions (indices in the order z y x, as in a chunk) *)
-Definition gen_designated (p0 p1 p2 i0 i1 w h : Z) (dirs : list dirinfo) (x y z c : Z) : option src :=
+(* what a conversion yields, in terms of the permutation and the three
+   inversions (indices in the order z y x, as in a chunk) *)
+Definition gen_designated (p0 p1 p2 i0 i1 i2 w h n : Z) (dirs : list dirinfo) (x y z c : Z) : option src :=
   match channel_source dirs 0 c with
   | Some (di, ch) =>
-      Some {| s_dir := di; s_file := pick3 (3 - p2) z y x;
+      Some {| s_dir := di; s_file := flip_index n i2 (pick3 (3 - p2) z y x);
               s_row := flip_index h i1 (pick3 (3 - p1) z y x);
               s_col := flip_index w i0 (pick3 (3 - p0) z y x); s_ch := ch |}
   | None => None
@@ -209,15 +220,15 @@ Lemma setup_cases : forall code, In code possible_axis_orientations ->
       Ok {| pr_p := (p0, p1, p2); pr_inv := (i0, i1, i2); pr_q := q;
             pr_isize := (w, h, n); pr_ichunk := (cw, chh, d) |} /\
     input_size_of code (sx, sy, sz) = Some (w, h, n) /\
-    i2 = (if slice_axis_forward code then 1 else -1) /\
+    (i2 = 1 \/ i2 = -1) /\
     In [p0; p1; p2] six_perms /\ invert_permutation [p0; p1; p2] = Ok q /\
     permute [sx; sy; sz] [p0; p1; p2] = Ok [w; h; n] /\
     permute [cx; cy; cz] [p0; p1; p2] = Ok [cw; chh; d] /\
     (i0 = 1 \/ i0 = -1) /\ (i1 = 1 \/ i1 = -1) /\
     (0 < sx -> 0 < sy -> 0 < sz -> 0 < w /\ 0 < h /\ 0 < n) /\
     (0 < cx -> 0 < cy -> 0 < cz -> 0 < cw /\ 0 < chh /\ 0 < d) /\
-    (slice_axis_forward code = true -> forall x y z c,
-       designated code (sx, sy, sz) dirs x y z c = gen_designated p0 p1 p2 i0 i1 w h dirs x y z c) /\
+    (forall x y z c,
+       designated code (sx, sy, sz) dirs x y z c = gen_designated p0 p1 p2 i0 i1 i2 w h n dirs x y z c) /\
     (Z.to_nat (n_chunks n d) * (Z.to_nat (n_chunks h chh) * Z.to_nat (n_chunks w cw)) =
      Z.to_nat (n_chunks sx cx) * Z.to_nat (n_chunks sy cy) * Z.to_nat (n_chunks sz cz))%nat.
 Proof.
@@ -225,36 +236,16 @@ Proof.
   unfold possible_axis_orientations in Hin. cbn [In] in Hin.
   repeat (destruct Hin as [<-|Hin];
           [do 13 eexists; split; [vm_compute; reflexivity|];
-           split; [reflexivity|]; split; [reflexivity|];
+           split; [reflexivity|]; split; [auto|];
            split; [vm_compute; tauto|]; split; [vm_compute; reflexivity|];
            split; [reflexivity|]; split; [reflexivity|];
            split; [auto|]; split; [auto|]; split; [intros; repeat split; assumption|];
            split; [intros; repeat split; assumption|];
-           split; [intro Hf; try discriminate Hf; intros; reflexivity|]; ring|]).
+           split; [intros; reflexivity|]; ring|]).
   contradiction.
 Qed.
 
-(* ================= reversed slice axis: the run never completes ================= *)
-
-Lemma run_groups_ok_inv : forall pr j groups done ds,
-  run_groups pr j groups done = (ds, Ok tt) ->
-  forall g, In g groups ->
-    let '(w, h, n) := pr_isize pr in
-    let '(_, _, d) := pr_ichunk pr in
-    let '(_, _, inv2) := pr_inv pr in
-    check_dirs (j_dirs j) (map (fun dd => group_sel (d_files dd) n d inv2 g) (j_dirs j)) w h = Ok tt.
-Proof.
-  intros pr j groups. destruct pr as [[[p0 p1] p2] [[i0 i1] i2] q [[w h] n] [[cw chh] d]].
-  induction groups as [|g0 r IH]; intros done ds H g Hin; [contradiction|].
-  cbn [run_groups pr_isize pr_ichunk pr_inv] in H |- *.
-  destruct (check_dirs (j_dirs j) (map (fun dd => group_sel (d_files dd) n d i2 g0) (j_dirs j)) w h)
-    as [[]| | | | | |k] eqn:E; try (injection H as _ H; discriminate).
-  destruct (negb (sumZl (map dir_channels (j_dirs j)) =? j_nch j)); [injection H as _ H; discriminate|].
-  match type of H with (match ?wc with _ => _ end) = _ => destruct wc as [done' [[]| | | | | |k]] eqn:Ew end;
-    try (injection H as _ H; discriminate).
-  destruct Hin as [<-|Hin]; [exact E|].
-  exact (IH _ _ H g Hin).
-Qed.
+(* ================= well-formed jobs ================= *)
 
 Lemma job_wf_fields : forall j, job_wf j = true ->
   exists sx sy sz cx cy cz w h n d0 dr,
@@ -276,60 +267,8 @@ Proof.
   apply Z.eqb_eq in Hs. repeat split; try assumption; reflexivity.
 Qed.
 
-Lemma reversed_never_completes_lemma : forall j,
-  existsb (code_eqb (j_code j)) possible_axis_orientations = true ->
-  slice_axis_forward (j_code j) = false -> job_wf j = true ->
-  snd (run j) <> Ok tt.
-Proof.
-  intros j Hc Hrev Hwf.
-  destruct (job_wf_fields j Hwf) as (sx & sy & sz & cx & cy & cz & w & h & n & d0 & dr & Ej & Hsx & Hsy & Hsz &
-                                      Hcx & Hcy & Hcz & Eis & Hdirs & Hch).
-  pose proof (in_table _ Hc) as Hin.
-  destruct (setup_cases _ Hin sx sy sz cx cy cz (j_nch j) (d0 :: dr))
-    as (p0 & p1 & p2 & i0 & i1 & i2 & q & w' & h' & n' & cw & chh & d & Es & Eis' & Ei2 & _ & _ & _ & _ & _ & _ &
-        Hpos & Hcpos & _ & _).
-  rewrite Eis in Eis'. injection Eis' as <- <- <-.
-  rewrite Hrev in Ei2. subst i2.
-  destruct (Hpos Hsx Hsy Hsz) as (Hw & Hh & Hn). destruct (Hcpos Hcx Hcy Hcz) as (_ & _ & Hd).
-  unfold run. rewrite Hc. cbn [negb]. rewrite Ej at 1. rewrite Es. cbn [pr_isize pr_ichunk].
-  rewrite Ej. cbn [j_dirs mkjob].
-  assert (Hfiles : existsb (fun dd => negb (d_files dd =? n)) (d0 :: dr) = false).
-  { clear -Hdirs. induction (d0 :: dr) as [|x l IH]; [reflexivity|].
-    cbn [forallb existsb] in *. apply andb_prop in Hdirs as [Hx Hl].
-    repeat (apply andb_prop in Hx as [Hx ?]). rewrite Hx. cbn. apply IH. exact Hl. }
-  rewrite Hfiles.
-  intro Hok.
-  destruct (run_groups _ _ (zrange 0 (n_chunks n d)) []) as [ds res] eqn:Er.
-  cbn [snd] in Hok. subst res.
-  pose proof (run_groups_ok_inv _ _ _ _ _ Er ((n - 1) / d)) as Hg.
-  cbn [pr_isize pr_ichunk pr_inv j_dirs mkjob] in Hg.
-  assert (Hgin : In ((n - 1) / d) (zrange 0 (n_chunks n d))).
-  { apply in_zrange. unfold n_chunks. pose proof (Z.div_pos (n - 1) d ltac:(lia) Hd). lia. }
-  specialize (Hg Hgin). cbn [map check_dirs] in Hg.
-  cbn [forallb] in Hdirs. apply andb_prop in Hdirs as [Hd0 _].
-  repeat (apply andb_prop in Hd0 as [Hd0 ?]). apply Z.eqb_eq in Hd0. rewrite Hd0 in Hg.
-  rewrite (reversed_last_group_empty_lemma n d Hn Hd) in Hg. discriminate.
-Qed.
+(* ================= the run completes, for both directions of the slice axis ================= *)
 
-Definition rai_witness : job :=
-  mkjob [82; 65; 73]%N 1 1 1 1 1 1 1 [{| d_files := 1; d_h := 1; d_w := 1; d_ch := None |}].
-
-Lemma reversed_last_group_refuted_lemma :
-  c15_guard rai_witness = false /\ job_wf rai_witness = true /\
-  run rai_witness = ([], Crash ValueError).
-Proof. repeat split; vm_compute; reflexivity. Qed.
-
-(* a larger witness: the first group is written, the last one aborts the run *)
-Definition lpi_witness : job :=
-  mkjob [76; 80; 73]%N 2 2 3 2 2 2 1 [{| d_files := 3; d_h := 2; d_w := 2; d_ch := None |}].
-
-Lemma reversed_partial_output_lemma :
-  map ck_coords (fst (run lpi_witness)) = [(0, 2, 0, 2, 0, 2)] /\ snd (run lpi_witness) = Crash ValueError /\
-  read_back (fst (run lpi_witness)) 0 0 0 0 = designated [76; 80; 73]%N (2, 2, 3) (j_dirs lpi_witness) 0 0 0 0 /\
-  read_back (fst (run lpi_witness)) 0 0 2 0 = None.
-Proof. repeat split; vm_compute; reflexivity. Qed.
-
-(* ================= forward slice axis: the run completes ================= *)
 
 Definition dir_ok (w h n : Z) (d : dirinfo) : bool :=
   (d_files d =? n) && (d_w d =? w) && (d_h d =? h) && (0 <? dir_channels d).
@@ -342,23 +281,17 @@ Proof.
   match goal with Hx : (0 <? _) = true |- _ => apply Z.ltb_lt in Hx end. auto.
 Qed.
 
-Lemma forward_sel : forall n d g, 0 < d -> 0 <= g -> d * g < n ->
-  group_sel n n d 1 g = zrange (d * g) (Z.min (d * (g + 1)) n - d * g).
-Proof.
-  intros n d g Hd Hg Hlt. unfold group_sel. change (1 =? -1) with false. cbv iota.
-  apply slice_forward; nia.
-Qed.
-
-Lemma check_dirs_forward : forall w h n d g dirs, 0 < d -> 0 <= g -> d * g < n ->
+Lemma check_dirs_forward : forall w h n d i2 g dirs, i2 = 1 \/ i2 = -1 -> 0 < d -> 0 <= g -> d * g < n ->
   forallb (dir_ok w h n) dirs = true ->
-  check_dirs dirs (map (fun dd => group_sel (d_files dd) n d 1 g) dirs) w h = Ok tt.
+  check_dirs dirs (map (fun dd => group_sel (d_files dd) n d i2 g) dirs) w h = Ok tt.
 Proof.
-  intros w h n d g dirs Hd Hg Hlt. induction dirs as [|x dirs IH]; intro Hok; [reflexivity|].
+  intros w h n d i2 g dirs Hi2 Hd Hg Hlt. induction dirs as [|x dirs IH]; intro Hok; [reflexivity|].
   cbn [forallb] in Hok. apply andb_prop in Hok as [Hx Hr].
   destruct (dir_ok_fields _ _ _ _ Hx) as (Hf & Hw & Hh & _).
-  cbn [map check_dirs]. rewrite Hf, (forward_sel n d g Hd Hg Hlt).
-  destruct (zrange (d * g) (Z.min (d * (g + 1)) n - d * g)) as [|a l] eqn:E.
-  - apply (f_equal (@length Z)) in E. rewrite zrange_length in E. cbn in E. nia.
+  cbn [map check_dirs]. rewrite Hf, (group_sel_spec n d i2 g Hi2 Hd Hg Hlt).
+  destruct (map (fun i => flip_index n i2 (d * g + i)) (zrange 0 (Z.min (d * (g + 1)) n - d * g)))
+    as [|a l] eqn:E.
+  - apply (f_equal (@length Z)) in E. rewrite map_length, zrange_length in E. cbn in E. nia.
   - rewrite Hw, Hh, !Z.eqb_refl. cbn [negb]. apply IH. exact Hr.
 Qed.
 
@@ -373,9 +306,9 @@ Proof.
     cbn [map]. rewrite <- app_assoc. reflexivity.
 Qed.
 
-Lemma run_groups_forward : forall p3 i0 i1 q w h n cw chh d j mkc,
-  let pr := {| pr_p := p3; pr_inv := (i0, i1, 1); pr_q := q; pr_isize := (w, h, n); pr_ichunk := (cw, chh, d) |} in
-  0 < d -> j_dirs j <> [] -> forallb (dir_ok w h n) (j_dirs j) = true ->
+Lemma run_groups_forward : forall p3 i0 i1 i2 q w h n cw chh d j mkc,
+  let pr := {| pr_p := p3; pr_inv := (i0, i1, i2); pr_q := q; pr_isize := (w, h, n); pr_ichunk := (cw, chh, d) |} in
+  (i2 = 1 \/ i2 = -1) -> 0 < d -> j_dirs j <> [] -> forallb (dir_ok w h n) (j_dirs j) = true ->
   sumZl (map dir_channels (j_dirs j)) = j_nch j ->
   (forall g ri ci, In (ri, ci) (cells_of pr) ->
      chunk_of pr (group_block pr (j_dirs j) g) g ri ci = Ok (mkc g ri ci)) ->
@@ -383,19 +316,19 @@ Lemma run_groups_forward : forall p3 i0 i1 q w h n cw chh d j mkc,
   run_groups pr j groups done =
     (done ++ flat_map (fun g => map (fun '(ri, ci) => mkc g ri ci) (cells_of pr)) groups, Ok tt).
 Proof.
-  intros p3 i0 i1 q w h n cw chh d j mkc pr Hd Hne Hdirs Hsum Hck.
+  intros p3 i0 i1 i2 q w h n cw chh d j mkc pr Hi2 Hd Hne Hdirs Hsum Hck.
   induction groups as [|g r IH]; intros done Hg.
   - cbn. rewrite app_nil_r. reflexivity.
   - destruct (Hg g (or_introl eq_refl)) as [Hg0 Hgn].
     cbn [run_groups]. unfold pr at 1 2 3. cbn [pr_isize pr_ichunk pr_inv].
-    rewrite (check_dirs_forward w h n d g (j_dirs j) Hd Hg0 Hgn Hdirs).
+    rewrite (check_dirs_forward w h n d i2 g (j_dirs j) Hi2 Hd Hg0 Hgn Hdirs).
     rewrite Hsum, Z.eqb_refl. cbn [negb].
-    assert (Hnsel : match map (fun dd => group_sel (d_files dd) n d 1 g) (j_dirs j) with
+    assert (Hnsel : match map (fun dd => group_sel (d_files dd) n d i2 g) (j_dirs j) with
                     | s :: _ => Z.of_nat (length s) | [] => 0 end = Z.min (d * (g + 1)) n - d * g).
     { destruct (j_dirs j) as [|d0 dr]; [contradiction|].
       cbn [forallb] in Hdirs. apply andb_prop in Hdirs as [Hd0 _].
       destruct (dir_ok_fields _ _ _ _ Hd0) as (Hf & _). cbn [map]. rewrite Hf.
-      rewrite (forward_sel n d g Hd Hg0 Hgn), zrange_length. nia. }
+      rewrite (group_sel_spec n d i2 g Hi2 Hd Hg0 Hgn), map_length, zrange_length. nia. }
     rewrite Hnsel.
     rewrite (write_chunks_ok pr _ g (mkc g)) by (intros; apply Hck; assumption).
     rewrite IH by (intros; apply Hg; right; assumption).
@@ -456,26 +389,26 @@ Qed.
 Lemma flip_in_range : forall len s i, s = 1 \/ s = -1 -> 0 <= i < len -> 0 <= flip_index len s i < len.
 Proof. intros len s i [-> | ->] H; unfold flip_index; cbn; lia. Qed.
 
-Lemma group_block_at : forall p0 p1 p2 i0 i1 q w h n cw chh d dirs g c a1 a2 a3,
-  let pr := {| pr_p := (p0, p1, p2); pr_inv := (i0, i1, 1); pr_q := q;
+Lemma group_block_at : forall p0 p1 p2 i0 i1 i2 q w h n cw chh d dirs g c a1 a2 a3,
+  let pr := {| pr_p := (p0, p1, p2); pr_inv := (i0, i1, i2); pr_q := q;
                pr_isize := (w, h, n); pr_ichunk := (cw, chh, d) |} in
   0 < d -> 0 <= g -> d * g < n -> forallb (dir_ok w h n) dirs = true -> 0 <= c ->
-  (i0 = 1 \/ i0 = -1) -> (i1 = 1 \/ i1 = -1) ->
+  (i0 = 1 \/ i0 = -1) -> (i1 = 1 \/ i1 = -1) -> (i2 = 1 \/ i2 = -1) ->
   0 <= pick3 (3 - p2) a1 a2 a3 < Z.min (d * (g + 1)) n - d * g ->
   0 <= pick3 (3 - p1) a1 a2 a3 < h -> 0 <= pick3 (3 - p0) a1 a2 a3 < w ->
   group_block pr dirs g c a1 a2 a3 =
     match channel_source dirs 0 c with
     | Some (di, ch) =>
-        Some {| s_dir := di; s_file := d * g + pick3 (3 - p2) a1 a2 a3;
+        Some {| s_dir := di; s_file := flip_index n i2 (d * g + pick3 (3 - p2) a1 a2 a3);
                 s_row := flip_index h i1 (pick3 (3 - p1) a1 a2 a3);
                 s_col := flip_index w i0 (pick3 (3 - p0) a1 a2 a3); s_ch := ch |}
     | None => None end.
 Proof.
-  intros p0 p1 p2 i0 i1 q w h n cw chh d dirs g c a1 a2 a3 pr Hd Hg Hgn Hdirs Hc Hi0 Hi1 Hj Hr Hcol.
+  intros p0 p1 p2 i0 i1 i2 q w h n cw chh d dirs g c a1 a2 a3 pr Hd Hg Hgn Hdirs Hc Hi0 Hi1 Hi2 Hj Hr Hcol.
   unfold group_block, pr. cbn [pr_p pr_inv pr_isize pr_ichunk]. unfold moveaxis_321.
   set (j := pick3 (3 - p2) a1 a2 a3) in *. set (r := pick3 (3 - p1) a1 a2 a3) in *.
   set (col := pick3 (3 - p0) a1 a2 a3) in *.
-  rewrite (concat_channels_at dirs 0 (fun dd => group_sel (d_files dd) n d 1 g)) by exact Hc.
+  rewrite (concat_channels_at dirs 0 (fun dd => group_sel (d_files dd) n d i2 g)) by exact Hc.
   destruct (channel_source dirs 0 c) as [[di ch]|] eqn:E; [|reflexivity].
   destruct (channel_source_spec _ _ _ _ _ Hc E) as (dd & Hn & Hch).
   rewrite Hn.
@@ -484,7 +417,7 @@ Proof.
   destruct (dir_ok_fields _ _ _ _ Hok) as (Hf & Hw & Hh & _).
   unfold load_block. rewrite Hf, Hw, Hh.
   pose proof (flip_in_range h i1 r Hi1 Hr) as Hfr. pose proof (flip_in_range w i0 col Hi0 Hcol) as Hfc.
-  rewrite (forward_sel n d g Hd Hg Hgn), (nth_error_zrange _ _ j Hj).
+  rewrite (group_sel_spec n d i2 g Hi2 Hd Hg Hgn), (nth_error_map_zrange _ _ j Hj).
   destruct (Z.leb_spec 0 j); [|lia].
   destruct (Z.leb_spec 0 (flip_index h i1 r)); [|lia]. destruct (Z.ltb_spec (flip_index h i1 r) h); [|lia].
   destruct (Z.leb_spec 0 (flip_index w i0 col)); [|lia]. destruct (Z.ltb_spec (flip_index w i0 col) w); [|lia].
@@ -608,25 +541,25 @@ Ltac cover_tac x y z :=
         first [apply Z.leb_le; lia | apply Z.ltb_lt; lia] ]
   end.
 
-Lemma forward_generic : forall p0 p1 p2 i0 i1 q sx sy sz cx cy cz w h n cw chh d j,
+Lemma forward_generic : forall p0 p1 p2 i0 i1 i2 q sx sy sz cx cy cz w h n cw chh d j,
   In [p0; p1; p2] six_perms -> invert_permutation [p0; p1; p2] = Ok q ->
   permute [sx; sy; sz] [p0; p1; p2] = Ok [w; h; n] ->
   permute [cx; cy; cz] [p0; p1; p2] = Ok [cw; chh; d] ->
   0 < sx -> 0 < sy -> 0 < sz -> 0 < cx -> 0 < cy -> 0 < cz ->
-  (i0 = 1 \/ i0 = -1) -> (i1 = 1 \/ i1 = -1) ->
+  (i0 = 1 \/ i0 = -1) -> (i1 = 1 \/ i1 = -1) -> (i2 = 1 \/ i2 = -1) ->
   j_dirs j <> [] -> forallb (dir_ok w h n) (j_dirs j) = true ->
   sumZl (map dir_channels (j_dirs j)) = j_nch j ->
-  let pr := {| pr_p := (p0, p1, p2); pr_inv := (i0, i1, 1); pr_q := q;
+  let pr := {| pr_p := (p0, p1, p2); pr_inv := (i0, i1, i2); pr_q := q;
                pr_isize := (w, h, n); pr_ichunk := (cw, chh, d) |} in
   exists ds, run_groups pr j (zrange 0 (n_chunks n d)) [] = (ds, Ok tt) /\
     (forall x y z c, 0 <= x < sx -> 0 <= y < sy -> 0 <= z < sz -> 0 <= c ->
-       read_back ds x y z c = gen_designated p0 p1 p2 i0 i1 w h (j_dirs j) x y z c) /\
+       read_back ds x y z c = gen_designated p0 p1 p2 i0 i1 i2 w h n (j_dirs j) x y z c) /\
     (forall x y z, 0 <= x < sx -> 0 <= y < sy -> 0 <= z < sz ->
        exists ck, In ck ds /\ in_chunk ck x y z = true) /\
     length ds = (Z.to_nat (n_chunks n d) * (Z.to_nat (n_chunks h chh) * Z.to_nat (n_chunks w cw)))%nat.
 Proof.
-  intros p0 p1 p2 i0 i1 q sx sy sz cx cy cz w h n cw chh d j Hp Hq Hsz Hcs
-         Hsx Hsy Hsz0 Hcx Hcy Hcz Hi0 Hi1 Hne Hdirs Hsum pr.
+  intros p0 p1 p2 i0 i1 i2 q sx sy sz cx cy cz w h n cw chh d j Hp Hq Hsz Hcs
+         Hsx Hsy Hsz0 Hcx Hcy Hcz Hi0 Hi1 Hi2 Hne Hdirs Hsum pr.
   unfold six_perms in Hp. cbn [In] in Hp.
   repeat (destruct Hp as [Hp|Hp]; [injection Hp as <- <- <-|]); try contradiction;
   vm_compute in Hq; injection Hq as <-;
@@ -648,9 +581,9 @@ Proof.
        | intro a; rewrite map_length; reflexivity ].
 Qed.
 
-(* ================= the theorems of C15 on the guard ================= *)
+(* ================= the theorem of C15 ================= *)
 
-Lemma orientation_on_guard_lemma : forall j, c15_guard j = true ->
+Lemma orientation_pointwise_lemma : forall j, c15_wf j = true ->
   exists ds sx sy sz cx cy cz,
     j_size j = [sx; sy; sz] /\ j_chunk j = [cx; cy; cz] /\ run j = (ds, Ok tt) /\
     (forall x y z c, 0 <= x < sx -> 0 <= y < sy -> 0 <= z < sz -> 0 <= c ->
@@ -659,21 +592,20 @@ Lemma orientation_on_guard_lemma : forall j, c15_guard j = true ->
        exists ck, In ck ds /\ in_chunk ck x y z = true) /\
     length ds = (Z.to_nat (n_chunks sx cx) * Z.to_nat (n_chunks sy cy) * Z.to_nat (n_chunks sz cz))%nat.
 Proof.
-  intros j Hg. unfold c15_guard in Hg. apply andb_prop in Hg as [Hg Hwf]. apply andb_prop in Hg as [Hc Hfw].
+  intros j Hg. unfold c15_wf in Hg. apply andb_prop in Hg as [Hc Hwf].
   destruct (job_wf_fields j Hwf) as (sx & sy & sz & cx & cy & cz & w & h & n & d0 & dr & Ej & Hsx & Hsy & Hsz &
                                       Hcx & Hcy & Hcz & Eis & Hdirs & Hch).
   pose proof (in_table _ Hc) as Hin.
   destruct (setup_cases _ Hin sx sy sz cx cy cz (j_nch j) (d0 :: dr))
-    as (p0 & p1 & p2 & i0 & i1 & i2 & q & w' & h' & n' & cw & chh & d & Es & Eis' & Ei2 & Hp & Hq & Hps & Hpc &
+    as (p0 & p1 & p2 & i0 & i1 & i2 & q & w' & h' & n' & cw & chh & d & Es & Eis' & Hi2 & Hp & Hq & Hps & Hpc &
         Hi0 & Hi1 & Hpos & Hcpos & Hdes & Hcount).
   rewrite Eis in Eis'. injection Eis' as <- <- <-.
-  rewrite Hfw in Ei2. subst i2.
   destruct (Hpos Hsx Hsy Hsz) as (Hw & Hh & Hn). destruct (Hcpos Hcx Hcy Hcz) as (_ & _ & Hd).
   assert (Ejd : j_dirs j = d0 :: dr) by (rewrite Ej; reflexivity).
   assert (Ejs : j_size j = [sx; sy; sz]) by (rewrite Ej; reflexivity).
   assert (Ejc : j_chunk j = [cx; cy; cz]) by (rewrite Ej; reflexivity).
-  destruct (forward_generic p0 p1 p2 i0 i1 q sx sy sz cx cy cz w h n cw chh d j Hp Hq Hps Hpc
-              Hsx Hsy Hsz Hcx Hcy Hcz Hi0 Hi1) as (ds & Hrun & Hpt & Hcov & Hlen).
+  destruct (forward_generic p0 p1 p2 i0 i1 i2 q sx sy sz cx cy cz w h n cw chh d j Hp Hq Hps Hpc
+              Hsx Hsy Hsz Hcx Hcy Hcz Hi0 Hi1 Hi2) as (ds & Hrun & Hpt & Hcov & Hlen).
   { rewrite Ejd. discriminate. }
   { rewrite Ejd. exact Hdirs. }
   { rewrite Ejd. exact Hch. }
@@ -686,7 +618,7 @@ Proof.
     rewrite Hfiles. rewrite Ejd at 1. exact Hrun.
   - split; [|split].
     + intros x y z c Hx Hy Hz Hcc. rewrite (Hpt x y z c Hx Hy Hz Hcc).
-      rewrite Ejd. symmetry. apply (Hdes Hfw).
+      rewrite Ejd. symmetry. apply Hdes.
     + exact Hcov.
     + rewrite Hlen. exact Hcount.
 Qed.
@@ -696,7 +628,25 @@ Definition ras_example : job :=
         [{| d_files := 2; d_h := 4; d_w := 3; d_ch := Some 3 |};
          {| d_files := 2; d_h := 4; d_w := 3; d_ch := None |}].
 
-Lemma guard_nonvacuous : c15_guard ras_example = true /\ snd (run ras_example) = Ok tt /\
+Lemma wf_nonvacuous : c15_wf ras_example = true /\ snd (run ras_example) = Ok tt /\
   read_back (fst (run ras_example)) 1 2 3 3 =
     Some {| s_dir := 1; s_file := 1; s_row := 3; s_col := 2; s_ch := 0 |}.
 Proof. repeat split; vm_compute; reflexivity. Qed.
+
+(* reversed slice axes (the case repaired by commit 6dd50ef): code LPI, three
+   slices, depth 2 -- both groups are written and the slices come out reversed *)
+Definition lpi_example : job :=
+  mkjob [76; 80; 73]%N 2 2 3 2 2 2 1 [{| d_files := 3; d_h := 2; d_w := 2; d_ch := None |}].
+
+Lemma reversed_example : c15_wf lpi_example = true /\
+  map ck_coords (fst (run lpi_example)) = [(0, 2, 0, 2, 0, 2); (0, 2, 0, 2, 2, 3)] /\
+  snd (run lpi_example) = Ok tt /\
+  read_back (fst (run lpi_example)) 0 0 0 0 = Some {| s_dir := 0; s_file := 2; s_row := 1; s_col := 1; s_ch := 0 |} /\
+  read_back (fst (run lpi_example)) 1 1 2 0 = Some {| s_dir := 0; s_file := 0; s_row := 0; s_col := 0; s_ch := 0 |}.
+Proof. repeat split; vm_compute; reflexivity. Qed.
+
+(* code RAI on a single 1 x 1 slice: the former failing witness now converts *)
+Definition rai_example : job :=
+  mkjob [82; 65; 73]%N 1 1 1 1 1 1 1 [{| d_files := 1; d_h := 1; d_w := 1; d_ch := None |}].
+Lemma rai_example_ok : map ck_coords (fst (run rai_example)) = [(0, 1, 0, 1, 0, 1)] /\ snd (run rai_example) = Ok tt.
+Proof. split; vm_compute; reflexivity. Qed.
